@@ -429,7 +429,7 @@ func residueRun(r *vlib.RNG) (*wl.Workload, *runOut) {
 		out.err = "initial Open: " + err.Error()
 		return w, out
 	}
-	defer db.Close()
+	defer closeDB(db)
 	out.openIdx = stor.OpCount()
 	write := func(id int, vlen int, sync bool) bool {
 		v := make([]byte, vlen)
